@@ -23,7 +23,7 @@ def _int(s, d=None):
 
 
 def nontrivial_c18(lines):
-    """backoff: inside the theorem's guard with at least one loop trip; latency: a
+    """backoff: 0 < base < max and retries > 0 (the loop body runs); latency: a
     duration was returned; flags: accepted by the real validateFlags and carried
     through the prober package; URI/interval/probe-type/payload: a value came back."""
     t = lines[0].split(";")
@@ -33,7 +33,7 @@ def nontrivial_c18(lines):
     k = op[1]
     if k == "B":
         b, m, r = _int(op[2]), _int(op[3]), _int(op[4])
-        return None not in (b, m, r) and 0 <= b <= m <= TWO53 and r > 0
+        return None not in (b, m, r) and 0 < b < m and r > 0
     if k == "L":
         return out[0] == "ok"
     if k == "F":
@@ -68,17 +68,18 @@ class ProberEngine(engines.HistEngine):
             quick=dict(VERIF_N="5000", VERIF_NF="2500", VERIF_MAXPAYLOAD="120"),
             thorough=dict(VERIF_N="400000", VERIF_NF="100000", VERIF_MAXPAYLOAD="2000"),
             nontrivial=nontrivial_c18,
-            rule="cases = corpus + seeded random, boundary-biased. backoff: the call site (200ms, 5s, 0..39), 0 <= base <= max <= 2^53 "
-                 "incl. both ends, base = max, retries from {negative, MinInt, 0..130, thousands, 2^31, 2^62, MaxInt}, and values outside "
-                 "the guard (beyond 2^53, negative, base > max); every case calls backoff for retries and retries+1. latency: header/"
+            rule="cases = corpus (incl. the witnesses of the fixed findings B1-B3) + seeded random, boundary-biased. backoff: the call site "
+                 "(200ms, 5s, 0..39), 0 <= base <= max <= 2^53 incl. both ends, base = max, retries from {negative, MinInt, 0..130, "
+                 "thousands, 2^31, 2^62, MaxInt}, and the rest of int64 (beyond 2^53 where float64 rounds, negative, MinInt64/MaxInt64, "
+                 "base > max); every case calls backoff for retries and retries+1. latency: header/"
                  "trailer maps with 0-3 server-timing entries (absent key, nil map, empty list, look-alike keys), numbers with sign, "
                  "leading zeros, '_', letters, spaces, non-ASCII digits, around MaxInt64/10^6 and around 2^63/2^64. flags: nine flag "
                  "values set through the flag package from text (names from the accepted alphabets, with one foreign byte, '/', '..', "
-                 "unicode, invalid UTF-8, empty, 3000 bytes; qps text incl. NaN/Inf/0/-0/negative/denormal/around 1.0842e-10/1000/hex "
+                 "unicode, invalid UTF-8, empty, 3000 bytes; qps text incl. NaN/Inf/0/-0/negative/denormal/around 1e-9 and 1.0842e-10/1000/hex "
                  "floats; ints incl. 0, negative, MinInt64/MaxInt64, malformed); every accepted set is carried through ProberOptions, the URI "
                  "builders, probeInterval and ParseProbeType of package prober. Plus URI builders, probeInterval, ParseProbeType and "
-                 "generatePayload on their own. distinct by hash of the input line(s); non-trivial = inside the theorem's guard with "
-                 "at least one loop trip (backoff) / a duration came back (latency) / accepted and carried through (flags) / a value "
+                 "generatePayload on their own. distinct by hash of the input line(s); non-trivial = 0 < base < max with "
+                 "at least one retry, i.e. the loop body runs (backoff) / a duration came back (latency) / accepted and carried through (flags) / a value "
                  "came back (others)"),
     }
 
@@ -146,9 +147,11 @@ ASSUMPTIONS = {
     "C18": [
         "float64 = IEEE-754 binary64 with round-to-nearest-even as formalised by Flocq 4.1.0; float64(int64) is CVTSQ2SD, "
         "int64(float64) is CVTTSD2SQ (truncation; NaN/out of range -> MinInt64) as the amd64 compiler emits them; on other "
-        "architectures the out-of-range result differs (Go leaves it implementation-defined)",
-        "theorems backoff_bounds/backoff_monotone assume 0 <= base <= max <= 2^53 ns; latency value correctness assumes "
-        "|ms| <= MaxInt64/10^6; interval_positive assumes 0x1.dcd6500000001p-34 <= qps <= 1000 (the monitors do NOT assume these)",
+        "architectures the out-of-range result differs (Go leaves it implementation-defined) - after the fixes no theorem "
+        "depends on an out-of-range conversion any more (backoff and probeInterval stay inside int64 for all admitted inputs)",
+        "the theorems hold for the code after the fixes 76e44a5 (B1), 3d18018 (B2), 30d7568 (B3) with no guard beyond the Go "
+        "types: backoff for all int64 base <= max and every retry count, latency for all metadata, interval for every accepted "
+        "flag set",
         "metadata.MD is modelled as an association list with unique keys; strconv.ParseInt(s,10,64), strings.HasPrefix/TrimPrefix/"
         "Split, fmt.Sprintf(\"%s\") and the two regular expressions (as byte classes) are modelled, not verified against their Go "
         "sources; they are compared with the real functions on every generated case",
@@ -157,6 +160,7 @@ ASSUMPTIONS = {
         "(two FIPS vectors + comparison with crypto/sha256 on every payload case), not proved against a specification",
         "what main() does between validateFlags() and the use of the URIs/interval (ParseProbeType, the ProberOptions literal, "
         "qps: opt.QPS in newSpannerProber) is replicated in harness/prober (callG) because main() itself dials Spanner",
-        "backoff with a non-positive base runs its loop `retries` times; such inputs are exercised up to 5000 retries only",
+        "the harness does not call backoff with a non-positive base and more than 5000 retries (a tree without fix 76e44a5 would "
+        "spin); the theorems cover those inputs",
     ],
 }
